@@ -8,7 +8,7 @@ Open Scope list_scope.
 
 Inductive oval := VNil | VBool (b : bool) | VStr (s : string) | VList (l : list oval) | VNum (n : Z).
 
-Inductive bfmt := BTrueFalse | BOneZero | BYesNo | BCustom | BUnknown.
+Inductive bfmt := BTrueFalse | BOneZero | BYesNo | BCustom | BEmpty | BUnknown.   (* BEmpty: format not given *)
 Inductive otype :=
 | TBool (f : bfmt) (tv fv : string) (dflt : bool)
 | TString (dflt : string) (trim : bool)
@@ -39,7 +39,7 @@ Definition fmt_bool (f : bfmt) (tv fv : string) (b : bool) : eres :=
   | BOneZero => Ok (if b then "1" else "0")
   | BYesNo => Ok (if b then "yes" else "no")
   | BCustom => Ok (if b then tv else fv)
-  | BUnknown => ErrInvalid
+  | BEmpty | BUnknown => ErrInvalid
   end.
 
 Definition mem (s : string) (l : list string) : bool := existsb (String.eqb s) l.
